@@ -104,6 +104,18 @@ func c05GoOnly(r *Run) {
 						ctx.Reset()
 					}
 					shape, shapeNew := string(dyntpl.VerifCtxShape(ctx)), string(dyntpl.VerifCtxShape(dyntpl.NewCtx()))
+					// the public readers on the reset context: every name of the earlier use reads as on a new context
+					// (no value, counter 0)
+					for _, nm := range []string{"c1", "c2", "c3", "c4", "z", "si", "ss", "lst", "t", "i", "k", "e", "nosuchname"} {
+						fresh := dyntpl.NewCtx()
+						gv, gc := fmt.Sprint(ctx.Get(nm)), ctx.GetCounter(nm)
+						wv, wc := fmt.Sprint(fresh.Get(nm)), fresh.GetCounter(nm)
+						if gv != wv || gc != wc {
+							r.Violate(fmt.Sprintf("go-only dirty=%s how=%d readers name=%s", d.key, mode, nm), "a context that was reset ("+how+") does not behave like a new one: Ctx.Get / Ctx.GetCounter still see what the earlier use left",
+								map[string]any{"first_template": d.src, "then": how, "name": nm, "Get": gv, "GetCounter": gc, "new_context_Get": wv, "new_context_GetCounter": wc})
+							break
+						}
+					}
 					if d.key == "d_now" || p.key == "p_now" {
 						time.Sleep(2 * time.Millisecond)
 					}
